@@ -1,6 +1,6 @@
 (** * C18 proofs, seventh pass: the acceptance statistic of Sample_Metropolis(_2D) (C18_Model2.v). *)
 From Coq Require Import ZArith List Bool Lia Reals Lra.
-From LP Require Import Num NumR C18_Model C18_Model2.
+From LP Require Import Num NumR C18_Model C18_Model2 C18_Proofs C18_Proofs_R.
 Import ListNotations.
 Local Open Scope Z_scope.
 
@@ -160,9 +160,14 @@ Proof.
   - eapply metro2_loop_w_sum in H; eauto.
 Qed.
 
+(* non-vacuity: a bounded chain of one iteration whose proposal deviate is 0 (candidate x - 10 sqrt(2) sigma); the call returns *)
 Example metropolis_average_ex :
-  sample_metropolis_w ROps (fun _ => 1) 1 1 1 0 [0; 1] [/2; /2; /2] = Ok ([/2], (1, true), []) /\ (0 < metro_imax 0 1 1)%Z.
+  (forall z : R, 0 <= (fun _ : R => 1) z) /\ (0 < metro_imax 0 1 1)%Z /\
+  exists l av w, sample_metropolis_w ROps (fun _ => 1) 1 1 1 0 [0; 1] [/2; 0; /2] = Ok (l, (av, w), []).
 Proof.
-  split; [|reflexivity].
+  split; [intros; lra|]. split; [reflexivity|].
+  pose proof (C18_Proofs_R.sample_gauss_at_zero (unif ROps (/2) 0 1) 1 []) as G. unfold sample_gauss in G.
   unfold sample_metropolis_w. change (metro_imax 0 1 1) with 1%Z. cbn [metro_loop_w Z.ltb Z.compare].
-Abort.
+  destruct (gauss_of ROps 0 (unif ROps (/ 2) 0 1) 1) as [cand| | |]; try discriminate.
+  cbn [Z.add Z.ltb Z.compare Pos.compare Pos.compare_cont finish_w]. eexists _, _, _. reflexivity.
+Qed.
